@@ -6,11 +6,11 @@
 #     event-log hashes, for every claimed property.
 # Exit 0 = both hold; 2 = tool trouble.
 export GOFLAGS=-mod=mod GOPROXY=off GOSUMDB=off GOTOOLCHAIN=local
-cd /verif || exit 2
+cd "$(dirname "$(readlink -f "$0")")" || exit 2
 [ -x bin/gsinstr ] || ./setup.sh >/dev/null || exit 2
 S=$(mktemp -d /dev/shm/gsim-self-XXXX 2>/dev/null || mktemp -d)
 trap 'rm -rf "$S"' EXIT
-bin/gsinstr -src /repo -out "$S/gophersat" -rt /verif/sim/rt >/dev/null || exit 2
+bin/gsinstr -src /repo -out "$S/gophersat" -rt sim/rt >/dev/null || exit 2
 (cd /repo && find . -name '*_test.go' -o -path '*/testcnf/*' | grep -v '^./.git' | while read f; do mkdir -p "$S/gophersat/$(dirname "$f")"; cp "$f" "$S/gophersat/$f"; done)
 if ! (cd "$S/gophersat" && go test -vet=off -count=1 ./... > "$S/baseline.log" 2>&1); then
   echo "TOOL-TROUBLE the repository's tests fail on the instrumented copy:"; tail -30 "$S/baseline.log"; exit 2
